@@ -176,6 +176,16 @@ def slice_locals(fn, o, depth=0, strict=False):
         for node, kind, pl in fn.defs().get(l, []):
             if kind == "assign" and pl["rv"]["r"] == "use":
                 q = pl["rv"]["o"].get("c") or pl["rv"]["o"].get("m")
+                if q is not None and len(q) > 1:
+                    # a field of a value built by aggregates (the tuple / Result a helper returned): continue with the operand stored
+                    res = fn.resolve_fields(q)
+                    if res:
+                        for o2 in res:
+                            r2 = o2.get("c") or o2.get("m")
+                            if r2 is not None and r2[0] not in out:
+                                out.add(r2[0])
+                                work.append(r2[0])
+                        continue
                 if q is not None and q[0] not in out:
                     out.add(q[0])
                     work.append(q[0])
